@@ -324,6 +324,7 @@ func (p *Prog) callEffects(fi *FuncInfo, info *types.Info, call *ast.CallExpr, e
 		switch o.Name() {
 		case "close":
 			e.Ghost["chan"] = true
+			e.Ghost["chanclose"] = true
 		case "delete":
 			for _, h := range p.heapNamesOf(u, info.TypeOf(call.Args[0])) {
 				e.Heaps[h] = true
@@ -398,6 +399,17 @@ func (p *Prog) callEffects(fi *FuncInfo, info *types.Info, call *ast.CallExpr, e
 		case "sort.Sort", "sort.Strings", "sort.Slice", "sort.Stable":
 			e.SliceStore = true
 		}
+		if strings.HasPrefix(full, "fmt.") {
+			// formatting a value that holds a pointer (not its own String / Error / Format method) prints a heap address
+			for _, a := range call.Args {
+				if p.feedsOnlyAnError(fi, call) {
+					break // the text of an error (or panic) value: a failed call yields no report and no code
+				}
+				if t := fi.Pkg.TypesInfo.TypeOf(a); t != nil && printsAddress(t, 0, map[types.Type]bool{}) {
+					e.Nondet["fmtaddr:"+fi.Name+"@"+exprString(a)] = full + " prints the address held in " + exprString(a) + " (" + t.String() + ") at " + p.pos(call)
+				}
+			}
+		}
 		if strings.HasPrefix(full, "math/rand.") {
 			e.Nondet["rand:"+fi.Name] = full + " at " + p.pos(call)
 		}
@@ -461,7 +473,7 @@ func opaqueHeap(h string) bool {
 
 // external functions known not to write through their arguments
 var extPure = map[string]bool{
-	"fmt.Sprintf": true, "fmt.Sprint": true, "fmt.Println": true, "fmt.Printf": true, "errors.New": true, "strings.Join": true, "strings.Split": true, "strings.SplitN": true,
+	"fmt.Sprintf": true, "fmt.Sprint": true, "fmt.Println": true, "fmt.Printf": true, "errors.New": true, "strings.Join": true, "strings.Split": true, "strings.SplitN": true, "strings.Fields": true,
 	"strings.Contains": true, "strings.ReplaceAll": true, "strings.HasPrefix": true, "strings.HasSuffix": true, "strings.Index": true, "strings.ToLower": true,
 	"strings.Title": true, "strings.Compare": true, "strings.TrimSpace": true, "strconv.Itoa": true, "strconv.Atoi": true, "strconv.ParseBool": true, "strconv.ParseFloat": true,
 	"strconv.FormatFloat": true, "regexp.MustCompile": true, "regexp.Regexp.MatchString": true, "regexp.Regexp.FindAllStringSubmatch": true, "regexp.Regexp.ReplaceAllString": true,
@@ -637,4 +649,103 @@ func (e *Effects) Describe() string {
 		parts = append(parts, "funcvalues")
 	}
 	return fmt.Sprintf("{%s}", strings.Join(parts, " "))
+}
+
+// printsAddress: fmt's default formatting of a value of type t shows a heap address (a pointer below the top level, a pointer
+// to a non-struct, a channel, a function, an unsafe.Pointer) - unless the value formats itself (String / Error / Format)
+func printsAddress(t types.Type, depth int, seen map[types.Type]bool) bool {
+	if seen[t] {
+		return false
+	}
+	seen[t] = true
+	for _, m := range []string{"String", "Error", "Format", "GoString"} {
+		for _, tt := range []types.Type{t, types.NewPointer(t)} {
+			if obj, _, _ := types.LookupFieldOrMethod(tt, true, nil, m); obj != nil {
+				if fn, ok := obj.(*types.Func); ok {
+					sig := fn.Type().(*types.Signature)
+					if m == "Format" || (sig.Params().Len() == 0 && sig.Results().Len() == 1) {
+						if _, isPtr := t.Underlying().(*types.Pointer); isPtr || tt == t || depth > 0 {
+							return false
+						}
+					}
+				}
+			}
+		}
+	}
+	switch u := t.Underlying().(type) {
+	case *types.Interface:
+		return false // dynamic type unknown
+	case *types.Pointer:
+		if depth > 0 {
+			return true
+		}
+		if st, ok := u.Elem().Underlying().(*types.Struct); ok {
+			for i := 0; i < st.NumFields(); i++ {
+				if printsAddress(st.Field(i).Type(), depth+1, seen) {
+					return true
+				}
+			}
+			return false
+		}
+		if _, ok := u.Elem().Underlying().(*types.Basic); ok {
+			return true
+		}
+		switch u.Elem().Underlying().(type) {
+		case *types.Slice, *types.Array, *types.Map:
+			return printsAddress(u.Elem(), depth+1, seen) // &[...] / &map[...]
+		}
+		return true
+	case *types.Chan, *types.Signature:
+		return true
+	case *types.Basic:
+		return u.Kind() == types.UnsafePointer || u.Kind() == types.Uintptr && false
+	case *types.Struct:
+		for i := 0; i < u.NumFields(); i++ {
+			if printsAddress(u.Field(i).Type(), depth+1, seen) {
+				return true
+			}
+		}
+	case *types.Slice:
+		return printsAddress(u.Elem(), depth+1, seen)
+	case *types.Array:
+		return printsAddress(u.Elem(), depth+1, seen)
+	case *types.Map:
+		return printsAddress(u.Key(), depth+1, seen) || printsAddress(u.Elem(), depth+1, seen)
+	}
+	return false
+}
+
+// feedsOnlyAnError: the formatting call is fmt.Errorf, or its value is directly the argument of errors.New / panic
+func (p *Prog) feedsOnlyAnError(fi *FuncInfo, call *ast.CallExpr) bool {
+	info := fi.Pkg.TypesInfo
+	if isPkgFunc(info, call, "fmt", "Errorf") {
+		return true
+	}
+	found := false
+	ast.Inspect(fi.Body(), func(n ast.Node) bool {
+		c, ok := n.(*ast.CallExpr)
+		if !ok || found {
+			return !found
+		}
+		isSink := isPkgFunc(info, c, "errors", "New")
+		if id, ok := unparen(c.Fun).(*ast.Ident); ok && id.Name == "panic" {
+			if _, isB := info.Uses[id].(*types.Builtin); isB {
+				isSink = true
+			}
+		}
+		if isSink {
+			for _, a := range c.Args {
+				a = unparen(a)
+				if a == ast.Expr(call) {
+					found = true
+				}
+				// panic(errors.New(fmt.Sprintf(...)))
+				if inner, ok := a.(*ast.CallExpr); ok && isPkgFunc(info, inner, "errors", "New") && len(inner.Args) == 1 && unparen(inner.Args[0]) == ast.Expr(call) {
+					found = true
+				}
+			}
+		}
+		return true
+	})
+	return found
 }
